@@ -1,5 +1,389 @@
+/-
+C15 — One centred template and size per distinct residue; user values win.
+
+Statement (properties.jsonl, fixed):
+  "Residues whose atom-name-labelled bond graphs are isomorphic share one template and size while residues
+   with different atom names get different ones; each template holds one position per atom name with zero
+   centre of geometry, virtual sites sit where GROMACS constructs them from their defining atoms, and a
+   template reported as optimised meets its bond, constraint, angle and improper targets within tolerance.
+   Templates and sizes supplied in a build file are used unchanged in place of generated ones, and every
+   size is positive."
+
+Property theorems only; lemmas live in `Proofs/Templates.lean` (and `Proofs/Rotation.lean`, shared with C06).
+The tables `TemplateTables.weights / tolerance / vsTable` are regenerated from `minimizer.py` and
+`virtual_site_builder.py` on every run, so the table facts below are re-established against the current
+source.
+
+ORACLES (parameters of the model, not verified — DESIGN.md C15 "Partial"):
+  * the Weisfeiler–Lehman graph hash `h` (networkx): assumed equal on isomorphic atom-name-labelled graphs
+    and different for different atom-name multisets — both assumptions appear as explicit hypotheses;
+  * Kamada–Kawai layout + L-BFGS-B optimisation + `compute_volume`'s square root: the function `gen`
+    (every theorem holds for every `gen`), and the measured values handed to `verdict`;
+  * the Euclidean norm `nrm` in the virtual-site constructions (any function; a square root where a
+    distance statement needs it).
+-/
 import PolyplyVerif.Generated.TemplateTables
 import PolyplyVerif.Model.Templates
+import PolyplyVerif.Proofs.Templates
+
 namespace PolyplyVerif.C15
-theorem C15_placeholder_table : PolyplyVerif.TemplateTables.maxOpt = 10 := by decide
+open PolyplyVerif.Rot PolyplyVerif.Templ PolyplyVerif.Proofs.Rotation PolyplyVerif.Proofs.Templates
+
+variable {K : Type} [Field K] {G : Type}
+
+/-! ### sharing -/
+
+/-- Sharing.  After `GenerateTemplates.run_system` (default grouping) the `template` attribute of every
+residue IS the hash of its graph, and the one final `templates` dict and the one `volumes` dict both have an
+entry under it.  Consequently (i) residues with isomorphic graphs — `h` is equal on them — carry the same
+key, hence share one template and one size; (ii) residues whose atom names differ — `h` differs on them —
+carry different keys.  Holds for every generator `gen`, every molecule mix, every build-file state
+`st0` in which templated keys have sizes. -/
+theorem C15_sharing (h : G → String) (gen : String → G → Generated K) (ms : List (Mol G K))
+    (st0 fin : GTState K) (attrs : List (List String))
+    (hinv : ∀ k, st0.templates.has k = true → st0.volumes.has k = true)
+    (huser : ∀ m ∈ ms, ∀ k, (m.userTemplates.getD []).has k = true → st0.volumes.has k = true)
+    (hrun : runSystem h gen false st0 ms = some (fin, attrs)) :
+    attrs = ms.map (fun m => m.nodes.map (fun n => h n.graph)) ∧
+    (∀ m ∈ ms, ∀ n ∈ m.nodes, fin.templates.has (h n.graph) = true ∧ fin.volumes.has (h n.graph) = true) ∧
+    (∀ (iso : G → G → Prop), (∀ a b, iso a b → h a = h b) →
+      ∀ m₁ ∈ ms, ∀ n₁ ∈ m₁.nodes, ∀ m₂ ∈ ms, ∀ n₂ ∈ m₂.nodes, iso n₁.graph n₂.graph →
+        h n₁.graph = h n₂.graph ∧
+        fin.templates.get? (h n₁.graph) = fin.templates.get? (h n₂.graph) ∧
+        fin.volumes.get? (h n₁.graph) = fin.volumes.get? (h n₂.graph)) ∧
+    (∀ (names : G → List String), (∀ a b, names a ≠ names b → h a ≠ h b) →
+      ∀ m₁ ∈ ms, ∀ n₁ ∈ m₁.nodes, ∀ m₂ ∈ ms, ∀ n₂ ∈ m₂.nodes, names n₁.graph ≠ names n₂.graph →
+        h n₁.graph ≠ h n₂.graph) := by
+  obtain ⟨c1, _, _, _, c5⟩ := runSystem_covers h gen ms st0 fin attrs hinv huser hrun
+  refine ⟨c1, c5, ?_, ?_⟩
+  · intro iso hiso m₁ _ n₁ _ m₂ _ n₂ _ hi
+    have e := hiso _ _ hi
+    exact ⟨e, by rw [e], by rw [e]⟩
+  · intro names hn m₁ _ n₁ _ m₂ _ n₂ _ hne
+    exact hn _ _ hne
+
+/-- … and the hypotheses of `C15_sharing` are what a build file establishes: after `read_build_file`
+(any sequence of `[ template ]` / `[ volumes ]` blocks) every supplied template has a size, so a run that
+starts from a fresh `GenerateTemplates` on molecules that all carry the build file's templates covers every
+residue. -/
+theorem C15_sharing_after_build_file (h : G → String) (gen : String → G → Generated K) (vols0 : Dict K)
+    (ops : List (BfOp K)) (nodes : List (List (ResNode G))) (fin : GTState K) (attrs : List (List String))
+    (hrun : runSystem h gen false ⟨[], (readBuildFile vols0 ops).1⟩
+      (nodes.map fun ns => ⟨ns, some (readBuildFile vols0 ops).2⟩) = some (fin, attrs)) :
+    attrs = nodes.map (fun ns => ns.map (fun n => h n.graph)) ∧
+    ∀ ns ∈ nodes, ∀ n ∈ ns, fin.templates.has (h n.graph) = true ∧ fin.volumes.has (h n.graph) = true := by
+  obtain ⟨c1, c2, _, _⟩ := C15_sharing h gen _ _ fin attrs
+    (fun k hk => by simp [Dict.has, Dict.get?] at hk)
+    (fun m hm k hk => by
+      simp only [List.mem_map] at hm
+      obtain ⟨ns, _, rfl⟩ := hm
+      exact readBuildFile_sizes vols0 ops k (by simpa using hk))
+    hrun
+  refine ⟨by simpa [List.map_map, Function.comp_def] using c1, ?_⟩
+  intro ns hns n hn
+  exact c2 ⟨ns, some (readBuildFile vols0 ops).2⟩ (List.mem_map_of_mem hns) n hn
+
+/-- non-vacuity: a build file with one template and a size for its residue name, two residues -/
+example :
+    let gen : String → String → Generated Rat := fun _ _ => ⟨[("A", ⟨1, 0, 0⟩)], 1/2, "RB"⟩
+    let bf := readBuildFile ([] : Dict Rat) [.volume "RA" (3/4), .template "RA" "x" [("A", ⟨2, 2, 2⟩)] (1/3)]
+    bf.1.get? "x" = some (3/4) ∧
+    (runSystem (fun g => g) gen false ⟨[], bf.1⟩ ([[⟨"RA", "x"⟩, ⟨"RB", "y"⟩]].map fun ns => ⟨ns, some bf.2⟩)).map
+      (fun r => (r.2, r.1.volumes.get? "x", r.1.volumes.get? "y")) = some ([["x", "y"]], some (3/4), some (1/2)) := by
+  simp [readBuildFile, BfState.step, rekeyVolumes, runSystem, runMolecule, extractTemplateGraphs,
+    groupResiduesByHash, genTemplates, Dict.has, Dict.get?, Dict.set, Dict.update, mapFromCoG]
+
+/-- With `skip_filter` the attributes are the hashes as well. -/
+theorem C15_sharing_attrs (h : G → String) (gen : String → G → Generated K) (sf : Bool) (ms : List (Mol G K))
+    (st0 fin : GTState K) (attrs : List (List String)) (hrun : runSystem h gen sf st0 ms = some (fin, attrs)) :
+    attrs = ms.map (fun m => m.nodes.map (fun n => h n.graph)) :=
+  runSystem_attrs h gen sf ms st0 fin attrs hrun
+
+example :
+    let gen : String → String → Generated Rat := fun _ _ => ⟨[("A", ⟨1, 0, 0⟩)], 1/2, "RA"⟩
+    (runSystem (fun g => g) gen true ⟨[], []⟩ [⟨[⟨"RA", "x"⟩, ⟨"RA", "x"⟩], none⟩]).map (·.2) = some [["x", "x"]] := by
+  simp [runSystem, runMolecule, extractTemplateGraphs, extractSkipFilter, genTemplates, Dict.has, Dict.get?,
+    Dict.set, Dict.del, Dict.update]
+
+/-- non-vacuity: two molecules, residues with hashes "x","y","x"; everything generated -/
+example :
+    let gen : String → String → Generated Rat := fun gh _ => ⟨[("A", ⟨1, 0, 0⟩), ("B", ⟨3, 0, 0⟩)], 1/2, "R" ++ gh⟩
+    let ms : List (Mol String Rat) := [⟨[⟨"RA", "x"⟩, ⟨"RB", "y"⟩], none⟩, ⟨[⟨"RA", "x"⟩], none⟩]
+    (runSystem (fun g => g) gen false ⟨[], []⟩ ms).map (·.2) = some [["x", "y"], ["x"]] := by
+  simp [runSystem, runMolecule, extractTemplateGraphs, groupResiduesByHash, genTemplates, Dict.has, Dict.get?,
+    Dict.set, Dict.update]
+
+/-! ### user values win -/
+
+/-- User templates win.  When the build file's templates `U` were handed to the molecules
+(`BuildDirector.finalize` gives every molecule the same dict), the final `templates` hold, under every key of
+`U`, exactly `U`'s value: nothing is generated for such a key and nothing overwrites it. -/
+theorem C15_user_wins (h : G → String) (gen : String → G → Generated K) (sf : Bool)
+    (U : Dict (Template K)) (hnd : U.keys.Nodup) (ms : List (Mol G K)) (hne : ms ≠ [])
+    (hU : ∀ m ∈ ms, m.userTemplates = some U)
+    (st0 fin : GTState K) (attrs : List (List String)) (hrun : runSystem h gen sf st0 ms = some (fin, attrs)) :
+    ∀ k T, U.get? k = some T → fin.templates.get? k = some T :=
+  runSystem_user_templates h gen sf U hnd ms hne hU st0 fin attrs hrun
+
+example :
+    let gen : String → String → Generated Rat := fun _ _ => ⟨[("A", ⟨9, 9, 9⟩)], 7, "RA"⟩
+    let U : Dict (Template Rat) := [("x", [("A", ⟨0, 0, 0⟩)])]
+    ((runSystem (fun g => g) gen false ⟨[], [("x", 1/3)]⟩ [⟨[⟨"RA", "x"⟩, ⟨"RB", "y"⟩], some U⟩]).map
+      (fun r => (r.1.templates.get? "x", r.1.volumes.get? "x", r.1.volumes.get? "y")))
+      = some (some [("A", ⟨0, 0, 0⟩)], some (1/3), some 7) := by
+  simp [runSystem, runMolecule, extractTemplateGraphs, groupResiduesByHash, genTemplates, Dict.has, Dict.get?,
+    Dict.set, Dict.update]
+
+/-- User sizes win.
+(1) `BuildDirector.finalize`: a `[ volumes ]` size of a residue name reaches the hash of the user's template
+    of that name and stays available under the name (hypotheses: no template hash of the build file is also
+    one of its residue names; templates of other names with the same hash do not carry a different size).
+(2) `gen_templates`: when a template is generated for a hash whose residue name has a size, that size is
+    stored for the hash (the computed one only otherwise) — and the stored template is the centred one.
+(3) A size stored under a key that has a template is never changed by `run_system`. -/
+theorem C15_user_wins_size :
+    (∀ (vols : Dict K) (r2h : Dict String), (∀ rh ∈ r2h, ∀ rh' ∈ r2h, rh.2 ≠ rh'.1) →
+      (∀ rh ∈ r2h, (rekeyVolumes vols r2h).get? rh.1 = vols.get? rh.1) ∧
+      (∀ rh ∈ r2h, ∀ v, vols.get? rh.1 = some v →
+        (∀ rh' ∈ r2h, rh'.2 = rh.2 → vols.get? rh'.1 = some v ∨ vols.get? rh'.1 = none) →
+        (rekeyVolumes vols r2h).get? rh.2 = some v)) ∧
+    (∀ (gen : String → G → Generated K) (st st' : GTState K) (gh : String) (g : G)
+        (rest : List (String × Option G)),
+      st.templates.has gh = false → genTemplates gen st ((gh, some g) :: rest) = some st' →
+      (∀ v, st.volumes.get? (gen gh g).resname = some v → st'.volumes.get? gh = some v) ∧
+      (st.volumes.get? (gen gh g).resname = none → st'.volumes.get? gh = some (gen gh g).volume)) ∧
+    (∀ (h : G → String) (gen : String → G → Generated K) (sf : Bool) (ms : List (Mol G K))
+        (st fin : GTState K) (attrs : List (List String)),
+      runSystem h gen sf st ms = some (fin, attrs) →
+      ∀ k, st.templates.has k = true → fin.volumes.get? k = st.volumes.get? k) := by
+  refine ⟨fun vols r2h hd => rekeyVolumes_spec vols r2h hd, ?_, ?_⟩
+  · intro gen st st' gh g rest hnew hrun
+    exact ⟨fun v hv => (genTemplates_user_volume gen st st' gh g rest v hnew hv hrun).1,
+           fun hv => genTemplates_own_volume gen st st' gh g rest hnew hv hrun⟩
+  · intro h gen sf ms st fin attrs hrun k hk
+    exact runSystem_size_fixed h gen sf ms st fin attrs hrun k hk
+
+example : (rekeyVolumes ([("RA", (77 : Rat) / 100)] : Dict Rat) [("RA", "hashA")]).get? "hashA" = some (77 / 100) ∧
+    (rekeyVolumes ([("RA", (77 : Rat) / 100)] : Dict Rat) [("RA", "hashA")]).get? "RA" = some (77 / 100) := by
+  simp [rekeyVolumes, Dict.get?, Dict.set]
+
+/-! ### templates are centred, one entry per atom name -/
+
+/-- `map_from_CoG` keeps the keys (one entry per atom name, same order) and returns vectors that sum to zero,
+i.e. a template with zero centre of geometry (field of characteristic 0, non-empty residue). -/
+theorem C15_template_centred [CharZero K] (coords : Template K) (hne : coords ≠ []) :
+    (mapFromCoG coords).map (·.1) = coords.map (·.1) ∧
+    V3.sum ((mapFromCoG coords).map (·.2)) = 0 ∧
+    centerOfGeometry ((mapFromCoG coords).map (·.2)) = 0 := by
+  refine ⟨mapFromCoG_keys coords, mapFromCoG_sum coords hne, ?_⟩
+  unfold centerOfGeometry
+  rw [mapFromCoG_sum coords hne]
+  ext <;> simp [sdiv_x, sdiv_y, sdiv_z, zero_x, zero_y, zero_z]
+
+example : mapFromCoG ([("A", ⟨1, 0, 0⟩), ("B", ⟨3, 0, 6⟩)] : Template Rat)
+    = [("A", ⟨-1, 0, -3⟩), ("B", ⟨1, 0, 3⟩)] := by
+  simp [mapFromCoG, centerOfGeometry, V3.sum, V3.add, V3.zero]
+  refine ⟨?_, ?_⟩ <;> ext <;> simp [sub_x, sub_y, sub_z, sdiv_x, sdiv_y, sdiv_z] <;> norm_num
+
+/-! ### virtual sites -/
+
+/-- Affine constructions (`virtual_sites2`, `virtual_sites3` type 1, `virtual_sitesn` type 1): what the code
+computes (`np.average` with weights) is exactly the GROMACS weighting `(1−a, a)`, `(1−a−b, a, b)`, `1/N`, and
+the construction commutes with EVERY affine map `x ↦ A·x + t`. -/
+theorem C15_vs_affine [CharZero K] (A : M3 K) (t : V3 K) (a b : K) (ri rj rk : V3 K) (xs : List (V3 K))
+    (hne : xs ≠ []) :
+    (vs2 a ri rj = gmx2 a ri rj ∧ vs3 a b ri rj rk = gmx3 a b ri rj rk ∧ vsn1 xs = gmxCog xs) ∧
+    vs2 a (aff A t ri) (aff A t rj) = aff A t (vs2 a ri rj) ∧
+    vs3 a b (aff A t ri) (aff A t rj) (aff A t rk) = aff A t (vs3 a b ri rj rk) ∧
+    vsn1 (xs.map (aff A t)) = aff A t (vsn1 xs) := by
+  refine ⟨⟨vs2_eq a ri rj, vs3_eq a b ri rj rk, vsn1_eq xs⟩, ?_, ?_, ?_⟩
+  · rw [vs2_eq, vs2_eq, gmx2_aff]
+  · rw [vs3_eq, vs3_eq, gmx3_aff]
+  · rw [vsn1_eq, vsn1_eq, gmxCog_aff A t xs hne]
+
+example : vs2 (1/4 : Rat) ⟨0, 0, 0⟩ ⟨4, 8, 0⟩ = ⟨1, 2, 0⟩ := by
+  rw [vs2_eq]; ext <;> simp [gmx2, add_x, add_y, add_z, smul_x, smul_y, smul_z] <;> norm_num
+
+/-- Normalised constructions (3fd, 3fad, 3out, 4fdn): the code's expression is the GROMACS formula, and the
+construction commutes with every rigid motion `x ↦ R·x + t`, `R` a proper rotation (C06's lemmas: norms, dot
+and cross products are preserved), whatever function `nrm` stands for the norm. -/
+theorem C15_vs_rigid (R : M3 K) (hR : Proper R) (t : V3 K) (nrm : K → K) (a b c : K) (ri rj rk rl : V3 K) :
+    (vs3fd nrm a b ri rj rk = gmx3fd nrm a b ri rj rk ∧ vs3fad nrm a b c ri rj rk = gmx3fad nrm a b c ri rj rk ∧
+     vs3out a b c ri rj rk = gmx3out a b c ri rj rk ∧ vs4fdn nrm a b c ri rj rk rl = gmx4fdn nrm a b c ri rj rk rl) ∧
+    vs3fd nrm a b (aff R t ri) (aff R t rj) (aff R t rk) = aff R t (vs3fd nrm a b ri rj rk) ∧
+    vs3fad nrm a b c (aff R t ri) (aff R t rj) (aff R t rk) = aff R t (vs3fad nrm a b c ri rj rk) ∧
+    vs3out a b c (aff R t ri) (aff R t rj) (aff R t rk) = aff R t (vs3out a b c ri rj rk) ∧
+    vs4fdn nrm a b c (aff R t ri) (aff R t rj) (aff R t rk) (aff R t rl)
+      = aff R t (vs4fdn nrm a b c ri rj rk rl) := by
+  refine ⟨⟨vs3fd_eq .., vs3fad_eq .., vs3out_eq .., vs4fdn_eq ..⟩, ?_, ?_, ?_, ?_⟩
+  · rw [vs3fd_eq, vs3fd_eq, gmx3fd_rigid hR]
+  · rw [vs3fad_eq, vs3fad_eq, gmx3fad_rigid hR]
+  · rw [vs3out_eq, vs3out_eq, gmx3out_rigid hR]
+  · rw [vs4fdn_eq, vs4fdn_eq, gmx4fdn_rigid hR]
+
+/-- non-vacuity: a proper rotation exists (C06) and 3out of an orthonormal frame is computed -/
+example : Proper (rotMat (⟨3/5, 4/5, 5/13, 12/13, 8/17, 15/17⟩ : Angles Rat)) ∧
+    vs3out (1 : Rat) 1 2 ⟨0, 0, 0⟩ ⟨1, 0, 0⟩ ⟨0, 1, 0⟩ = ⟨1, 1, 2⟩ := by
+  refine ⟨rotMat_proper _ (by norm_num) (by norm_num) (by norm_num), ?_⟩
+  ext <;> simp [vs3out, V3.cross, add_x, add_y, add_z, sub_x, sub_y, sub_z, smul_x, smul_y, smul_z]
+
+/-- With a genuine square root for `nrm`, a 3fd site lies at distance `|b|` from atom i. -/
+theorem C15_vs_3fd_distance (nrm : K → K) (a b : K) (ri rj rk : V3 K)
+    (hn : nrm (V3.normSq ((rj - ri) + V3.smul a (rk - rj))) * nrm (V3.normSq ((rj - ri) + V3.smul a (rk - rj)))
+      = V3.normSq ((rj - ri) + V3.smul a (rk - rj)))
+    (h0 : nrm (V3.normSq ((rj - ri) + V3.smul a (rk - rj))) ≠ 0) :
+    V3.normSq (vs3fd nrm a b ri rj rk - ri) = b * b := by
+  rw [vs3fd_eq]; exact gmx3fd_dist nrm a b ri rj rk hn h0
+
+example : (fun q : Rat => if q = 25 then 5 else 0) (V3.normSq (((⟨3, 4, 0⟩ : V3 Rat) - ⟨0, 0, 0⟩) +
+    V3.smul 0 ((⟨9, 9, 9⟩ : V3 Rat) - ⟨3, 4, 0⟩))) = 5 := by
+  simp [V3.normSq, V3.dot, add_x, add_y, add_z, sub_x, sub_y, sub_z, smul_x, smul_y, smul_z]; norm_num
+
+/-- The dispatch table of the code against the GROMACS definitions — PARTIAL: for every `(section, function
+type)` of the GROMACS manual EXCEPT `virtual_sitesn` types 2 (COM) and 3 (COW), whenever the GROMACS
+construction is defined for the given arity, `construct_vs` through the current `VIRTUAL_SITES` table
+computes exactly it.  What is missing for the full statement is refuted below
+(`C15_vsn_com_built_as_cog`): the table maps `virtual_sitesn` 2 and 3 to the plain centre of geometry
+(known finding `vsn-com-as-cog`). -/
+theorem C15_vs_gromacs_partial (nrm : K → K) (vsType func : String) (params masses : List K) (xs : List (V3 K))
+    (v : V3 K) (hnot : ¬ (vsType = "virtual_sitesn" ∧ (func = "2" ∨ func = "3")))
+    (hg : gmxConstruct nrm vsType func params masses xs = some v) :
+    constructVS TemplateTables.vsTable nrm vsType func params xs = some v := by
+  unfold gmxConstruct at hg
+  split at hg
+  all_goals first
+    | exact absurd ⟨rfl, Or.inl rfl⟩ hnot
+    | exact absurd ⟨rfl, Or.inr rfl⟩ hnot
+    | (simp only [Option.some.injEq] at hg; subst hg;
+       simp [constructVS, TemplateTables.vsTable, List.find?, constructByName,
+         vs2_eq, vs3_eq, vs3fd_eq, vs3fad_eq, vs3out_eq, vs4fdn_eq, vsn1_eq])
+    | (simp at hg)
+
+example : gmxConstruct (fun q : Rat => q) "virtual_sites3" "4" [1, 1, 2] [] [⟨0, 0, 0⟩, ⟨1, 0, 0⟩, ⟨0, 1, 0⟩]
+    = some (gmx3out 1 1 2 ⟨0, 0, 0⟩ ⟨1, 0, 0⟩ ⟨0, 1, 0⟩) := rfl
+
+/-- The excluded case is a real difference (known finding `vsn-com-as-cog`): for `virtual_sitesn` type 2 with
+masses 3 : 1 on the points 0 and 4 the code's table yields the centre of geometry 2, GROMACS the centre of
+mass 1. -/
+theorem C15_vsn_com_built_as_cog :
+    constructVS TemplateTables.vsTable (fun q : Rat => q) "virtual_sitesn" "2" [] [⟨0, 0, 0⟩, ⟨4, 0, 0⟩]
+      = some ⟨2, 0, 0⟩ ∧
+    gmxConstruct (fun q : Rat => q) "virtual_sitesn" "2" [] [3, 1] [⟨0, 0, 0⟩, ⟨4, 0, 0⟩] = some ⟨1, 0, 0⟩ := by
+  constructor
+  · simp [constructVS, TemplateTables.vsTable, List.find?, constructByName, vsn1_eq, gmxCog, V3.sum, V3.add, V3.zero]
+    ext <;> simp [smul_x, smul_y, smul_z] <;> norm_num
+  · simp [gmxConstruct, gmxWeighted, V3.sum, V3.add, V3.zero, V3.smul]
+    norm_num
+
+/-! ### the optimisation verdict -/
+
+/-- Table facts (re-established against the current `WEIGHTS`, `tolerance`, `INTER_METHODS` and the penalty
+functions on every run): for each of the four interaction types the weight its penalty function multiplies
+with is positive and not smaller than the weight of the threshold (`compute_bond` uses `WEIGHTS["bonds"]` for
+constraints as well, the threshold uses `WEIGHTS["constraints"]`), and the tolerance is non-negative. -/
+theorem C15_tables_positive :
+    ∀ k ∈ ["bonds", "constraints", "angles", "dihedrals"],
+      0 < penaltyWeight TemplateTables.weights TemplateTables.interMethods TemplateTables.penaltyWeightKey k ∧
+      lookupD TemplateTables.weights k
+        ≤ penaltyWeight TemplateTables.weights TemplateTables.interMethods TemplateTables.penaltyWeightKey k ∧
+      0 ≤ lookupD TemplateTables.tolerance k := by
+  have hkey : ∀ k ∈ ["bonds", "constraints", "angles", "dihedrals"],
+      penaltyKey TemplateTables.interMethods TemplateTables.penaltyWeightKey k
+        ∈ ["bonds", "constraints", "angles", "dihedrals"] := by decide
+  have hpos : ∀ k ∈ ["bonds", "constraints", "angles", "dihedrals"],
+      0 < lookupD TemplateTables.weights k ∧ 0 ≤ lookupD TemplateTables.tolerance k := by
+    intro k hk
+    simp only [List.mem_cons, List.mem_nil_iff, or_false] at hk
+    rcases hk with rfl | rfl | rfl | rfl <;>
+      simp [lookupD, Dict.get?, TemplateTables.weights, TemplateTables.tolerance]
+  have hle : ∀ k ∈ ["bonds", "constraints", "angles", "dihedrals"],
+      lookupD TemplateTables.weights k
+        ≤ lookupD TemplateTables.weights (penaltyKey TemplateTables.interMethods TemplateTables.penaltyWeightKey k) := by
+    intro k hk
+    simp only [List.mem_cons, List.mem_nil_iff, or_false] at hk
+    rcases hk with rfl | rfl | rfl | rfl
+    · rw [show penaltyKey TemplateTables.interMethods TemplateTables.penaltyWeightKey "bonds" = "bonds" by decide]
+    · rw [show penaltyKey TemplateTables.interMethods TemplateTables.penaltyWeightKey "constraints" = "bonds" by decide]
+      simp [lookupD, Dict.get?, TemplateTables.weights]
+    · rw [show penaltyKey TemplateTables.interMethods TemplateTables.penaltyWeightKey "angles" = "angles" by decide]
+    · rw [show penaltyKey TemplateTables.interMethods TemplateTables.penaltyWeightKey "dihedrals" = "dihedrals" by decide]
+  intro k hk
+  exact ⟨(hpos _ (hkey k hk)).1, hle k hk, (hpos k hk).2⟩
+
+/-- A template reported as optimised meets its targets: if the verdict loop of `optimize_geometry` (current
+`WEIGHTS`, current default `tolerance`, current penalty functions) returns `True` for the measured values,
+then every bond, constraint, angle and improper dihedral is within its tolerance
+(`|value − target| ≤ tol`), for interaction lists of any length. -/
+theorem C15_optimised_within_tol (items : List Item)
+    (hk : ∀ it ∈ items, it.kind ∈ ["bonds", "constraints", "angles", "dihedrals"])
+    (h : verdict TemplateTables.weights TemplateTables.tolerance TemplateTables.interMethods
+      TemplateTables.penaltyWeightKey items = true) :
+    withinTolerance TemplateTables.tolerance items = true ∧
+    ∀ it ∈ items, ¬ (it.kind = "dihedrals" ∧ it.improper = false) →
+      |it.value - it.target| ≤ lookupD TemplateTables.tolerance it.kind := by
+  have hw := verdict_within TemplateTables.weights TemplateTables.tolerance TemplateTables.interMethods
+    TemplateTables.penaltyWeightKey items (fun it hit => C15_tables_positive it.kind (hk it hit)) h
+  refine ⟨hw, ?_⟩
+  intro it hit hnot
+  unfold withinTolerance at hw
+  rw [List.all_eq_true] at hw
+  have := hw it hit
+  simp only [Bool.or_eq_true, Bool.and_eq_true, decide_eq_true_eq, Bool.not_eq_true'] at this
+  rcases this with hd | hd
+  · exact absurd hd hnot
+  · rwa [rabs_eq_abs] at hd
+
+example : verdict TemplateTables.weights TemplateTables.tolerance TemplateTables.interMethods
+      TemplateTables.penaltyWeightKey
+      [⟨"bonds", false, 13/40, 3/10⟩, ⟨"angles", false, 123, 120⟩, ⟨"dihedrals", true, -2, 0⟩] = true ∧
+    verdict TemplateTables.weights TemplateTables.tolerance TemplateTables.interMethods
+      TemplateTables.penaltyWeightKey [⟨"constraints", false, 2/5, 3/10⟩] = false := by
+  have k1 : penaltyKey TemplateTables.interMethods TemplateTables.penaltyWeightKey "bonds" = "bonds" := by decide
+  have k2 : penaltyKey TemplateTables.interMethods TemplateTables.penaltyWeightKey "angles" = "angles" := by decide
+  have k3 : penaltyKey TemplateTables.interMethods TemplateTables.penaltyWeightKey "dihedrals" = "dihedrals" := by decide
+  have k4 : penaltyKey TemplateTables.interMethods TemplateTables.penaltyWeightKey "constraints" = "bonds" := by decide
+  constructor <;>
+    simp [verdict, penalty, penaltyWeight, k1, k2, k3, k4, lookupD, Dict.get?, TemplateTables.weights,
+      TemplateTables.tolerance] <;> norm_num
+
+/-! ### sizes -/
+
+/-- Every size is positive (exact arithmetic, residues of any number of atoms).  For an input as
+`compute_volume` builds it — differences taken from the centre of geometry (they sum to zero), `nrm` the
+genuine norm of each difference, positive self σ, non-negative threshold, at least one atom — the result is
+never the error case and is positive in both branches: atoms off the centre are pushed out along their own
+direction by a positive factor, so the pushed-out vectors cannot all coincide (their differences sum to
+zero) and the radius of gyration is non-zero; if all atoms sit on the centre the largest σ is returned. -/
+theorem C15_size_positive (thr : Rat) (atoms : List VolAtom) (hin : VolInput thr atoms) :
+    (computeVolume thr atoms).positive :=
+  computeVolume_positive_full thr atoms hin
+
+/-- non-vacuity: two beads 1 nm apart (3-4-5 norms are rational), σ = 0.47 -/
+example : VolInput TemplateTables.volThreshold
+    [⟨⟨3/10, 4/10, 0⟩, 1/2, 47/100⟩, ⟨⟨-3/10, -4/10, 0⟩, 1/2, 47/100⟩] := by
+  refine ⟨by simp [TemplateTables.volThreshold], ?_, ?_, ?_, ?_, by simp⟩
+  · intro a ha; simp at ha; rcases ha with rfl | rfl <;> norm_num
+  · intro a ha; simp at ha; rcases ha with rfl | rfl <;> norm_num
+  · intro a ha; simp at ha; rcases ha with rfl | rfl <;> simp [V3.normSq, V3.dot] <;> norm_num
+  · simp [V3.sum, V3.add, V3.zero]; ext <;> simp [zero_x, zero_y, zero_z] <;> norm_num
+
+/-- Sizes are positive — PARTIAL (weaker hypotheses than `C15_size_positive`: nothing is assumed about `nrm`
+or about centring, only positive σ).  The squared radius of gyration is never negative, so the size `√q` of
+the radius-of-gyration branch is positive as soon as `q ≠ 0`; the size of the largest-radius branch (all
+atoms on the centre: single beads, stacked beads) is positive.  What stays outside both theorems is the
+floating point evaluation: `sqrt` and the comparison with the threshold 1e-18, which is below the rounding
+noise of the centred coordinates (an atom exactly on the centre is then pushed out along a noise direction;
+the size stays positive but depends on the noise — see notes/C15_findings.md). -/
+theorem C15_size_positive_partial (thr : Rat) (atoms : List VolAtom) (hrad : ∀ a ∈ atoms, 0 < a.rad) :
+    (∀ pts, 0 ≤ radiusOfGyrationSq pts) ∧
+    (∀ q, computeVolume thr atoms = .sqrtOf q → q ≠ 0 → (computeVolume thr atoms).positive) ∧
+    (∀ r, computeVolume thr atoms = .exact r → (computeVolume thr atoms).positive) := by
+  obtain ⟨p1, p2⟩ := computeVolume_positive thr atoms hrad
+  refine ⟨radiusOfGyrationSq_nonneg, ?_, ?_⟩
+  · intro q hq hne; rw [hq]; exact p1 q hq hne
+  · intro r hr; rw [hr]; exact p2 r hr
+
+example : computeVolume TemplateTables.volThreshold [⟨⟨0, 0, 0⟩, 0, 47/100⟩] = .exact (47/100) := by
+  simp [computeVolume, geomVects, nearRadii, maxList, TemplateTables.volThreshold, isZero]
+
 end PolyplyVerif.C15
